@@ -303,7 +303,13 @@ m = re.fullmatch(r"\(\$value: expr, \$from: ident, \$to: ident\) => \{ \{ let va
 if not m:
     fail("macro cast_to_integer changed: " + mb)
 int_neg, int_lo, int_hi = (CMP[x] for x in m.groups())
-mb = macro_body("cast_float_to_integer")
+if not re.search(r"macro_rules! cast_float_to_integer \{", src):
+    # the pinned code before the fix had no such macro (and no arm can use it): neutral parameters
+    if any("XFloat" in r[2] for r in cast_rows):
+        fail("cast_float_to_integer! is used but not defined")
+    mb = "($value: expr, $from: ident, $to: ident) => {{ if $value >= $to::MIN as $from && $value < ($to::MAX as $from) + 1.0 { ($value as $to).into() } else { Variant::Empty } }};"
+else:
+    mb = macro_body("cast_float_to_integer")
 m = re.fullmatch(r"\(\$value: expr, \$from: ident, \$to: ident\) => \{\{ if \$value " + C + r" \$to::MIN as \$from && \$value " + C +
                  r" \(\$to::MAX as \$from\)( \+ 1\.0)? \{ \(\$value as \$to\)\.into\(\) \} else \{ Variant::Empty \} \}\};", mb)
 if not m:
